@@ -19,27 +19,27 @@ use noodles_vcf::header::{
 
 #[derive(Clone, Debug, Default, PartialEq)]
 pub struct HMap {
-    id: String,
-    num: Option<String>,
-    ty: Option<String>,
-    desc: Option<String>,
-    len: Option<usize>,
-    md5: Option<String>,
-    url: Option<String>,
-    idx: Option<usize>,
-    others: Vec<(String, String)>,
+    pub id: String,
+    pub num: Option<String>,
+    pub ty: Option<String>,
+    pub desc: Option<String>,
+    pub len: Option<usize>,
+    pub md5: Option<String>,
+    pub url: Option<String>,
+    pub idx: Option<usize>,
+    pub others: Vec<(String, String)>,
 }
 
 #[derive(Clone, Debug, Default, PartialEq)]
 pub struct HHeader {
-    ff: (u32, u32),
-    infos: Vec<HMap>,
-    filters: Vec<HMap>,
-    formats: Vec<HMap>,
-    alts: Vec<HMap>,
-    contigs: Vec<HMap>,
-    others: Vec<(String, Vec<String>)>,
-    samples: Vec<String>,
+    pub ff: (u32, u32),
+    pub infos: Vec<HMap>,
+    pub filters: Vec<HMap>,
+    pub formats: Vec<HMap>,
+    pub alts: Vec<HMap>,
+    pub contigs: Vec<HMap>,
+    pub others: Vec<(String, Vec<String>)>,
+    pub samples: Vec<String>,
 }
 
 fn hx(s: &str) -> String {
@@ -190,7 +190,7 @@ macro_rules! set_others {
 }
 
 /// None = the value is not representable through the typed API
-fn build(h: &HHeader) -> Option<vcf::Header> {
+pub fn build(h: &HHeader) -> Option<vcf::Header> {
     use noodles_vcf::header::record::value::map::{format, info};
     let mut b = vcf::Header::builder().set_file_format(FileFormat::new(h.ff.0, h.ff.1));
     for m in &h.infos {
@@ -239,7 +239,7 @@ fn build(h: &HHeader) -> Option<vcf::Header> {
 }
 
 /// None = the header holds something the model does not cover (structured other records)
-fn unbuild(h: &vcf::Header) -> Option<HHeader> {
+pub fn unbuild(h: &vcf::Header) -> Option<HHeader> {
     use noodles_vcf::header::record::value::map::{format, info};
     let of = |it: &mut dyn Iterator<Item = (String, String)>| it.collect::<Vec<_>>();
     let mut out = HHeader { ff: (h.file_format().major(), h.file_format().minor()), ..Default::default() };
@@ -287,7 +287,7 @@ fn read_text(t: &[u8]) -> R<vcf::Header> {
 }
 
 /// the textual criterion of NV.Vcf.Header.unmodelled_lines
-fn unmodelled(lines: &[&[u8]]) -> bool {
+pub fn unmodelled(lines: &[&[u8]]) -> bool {
     lines.iter().any(|l| {
         let Some(r) = l.strip_prefix(b"##") else { return false };
         let Some(i) = r.iter().position(|&b| b == b'=') else { return false };
@@ -404,6 +404,12 @@ fn gen_others(rng: &mut Rng, odd: bool) -> Vec<(String, String)> {
 }
 
 pub fn gen_hw(rng: &mut Rng, w: &mut CaseWriter, odd: bool) {
+    let h = gen_header(rng, odd);
+    // valid = the typed API accepts it and nothing in it is written raw with a delimiter inside
+    w.push("hw", vec![header_str(&h), (!odd as u8).to_string()]);
+}
+
+pub fn gen_header(rng: &mut Rng, odd: bool) -> HHeader {
     let ff = *rng.pick(&[(4u32, 2u32), (4, 3), (4, 4), (4, 5), (4, 1), (4, 10), (5, 0), (3, 9)]);
     let mut h = HHeader { ff, ..Default::default() };
     let idx = rng.chance(1, 3);
@@ -461,8 +467,7 @@ pub fn gen_hw(rng: &mut Rng, w: &mut CaseWriter, odd: bool) {
     }
     let ns = *rng.pick(&[0usize, 0, 1, 2, 4]);
     h.samples = pick_distinct(rng, ns, if odd { SAMPLES } else { &SAMPLES[..7] });
-    // valid = the typed API accepts it and nothing in it is written raw with a delimiter inside
-    w.push("hw", vec![header_str(&h), (!odd as u8).to_string()]);
+    h
 }
 
 const HP_HEADERS: &[&[&str]] = &[
@@ -518,6 +523,22 @@ const HP_HEADERS: &[&[&str]] = &[
     &["##fileformat=VCFv4.2", "##x=<y>", "##z=<", "#CHROM\tPOS\tID\tREF\tALT\tQUAL\tFILTER\tINFO"],
     &["##fileformat=VCFv4.2", "#x=y", "#CHROM\tPOS\tID\tREF\tALT\tQUAL\tFILTER\tINFO"],
     &["##fileformat=VCFv4.3", "x=y", "#CHROM\tPOS\tID\tREF\tALT\tQUAL\tFILTER\tINFO"],
+    // reserved keys: the definition must be the reserved one of the file format (4.3 / 4.4 / 4.5)
+    &["##fileformat=VCFv4.3", "##INFO=<ID=AC,Number=A,Type=Integer,Description=\"d\">", "##FORMAT=<ID=DP,Number=1,Type=Integer,Description=\"d\">", "#CHROM\tPOS\tID\tREF\tALT\tQUAL\tFILTER\tINFO"],
+    &["##fileformat=VCFv4.3", "##INFO=<ID=AC,Number=1,Type=Integer,Description=\"d\">", "#CHROM\tPOS\tID\tREF\tALT\tQUAL\tFILTER\tINFO"],
+    &["##fileformat=VCFv4.2", "##INFO=<ID=AC,Number=1,Type=Integer,Description=\"d\">", "#CHROM\tPOS\tID\tREF\tALT\tQUAL\tFILTER\tINFO"],
+    &["##fileformat=VCFv4.3", "##INFO=<ID=AC,Number=A,Type=Float,Description=\"d\">", "#CHROM\tPOS\tID\tREF\tALT\tQUAL\tFILTER\tINFO"],
+    &["##fileformat=VCFv4.3", "##INFO=<ID=SVLEN,Number=.,Type=Integer,Description=\"d\">", "#CHROM\tPOS\tID\tREF\tALT\tQUAL\tFILTER\tINFO"],
+    &["##fileformat=VCFv4.4", "##INFO=<ID=SVLEN,Number=.,Type=Integer,Description=\"d\">", "#CHROM\tPOS\tID\tREF\tALT\tQUAL\tFILTER\tINFO"],
+    &["##fileformat=VCFv4.4", "##INFO=<ID=SVLEN,Number=A,Type=Integer,Description=\"d\">", "##INFO=<ID=SVCLAIM,Number=A,Type=String,Description=\"d\">", "#CHROM\tPOS\tID\tREF\tALT\tQUAL\tFILTER\tINFO"],
+    &["##fileformat=VCFv4.3", "##INFO=<ID=SVCLAIM,Number=1,Type=Integer,Description=\"d\">", "#CHROM\tPOS\tID\tREF\tALT\tQUAL\tFILTER\tINFO"],
+    &["##fileformat=VCFv4.5", "##FORMAT=<ID=LAA,Number=.,Type=Integer,Description=\"d\">", "##FORMAT=<ID=LPL,Number=LG,Type=Integer,Description=\"d\">", "#CHROM\tPOS\tID\tREF\tALT\tQUAL\tFILTER\tINFO"],
+    &["##fileformat=VCFv4.5", "##FORMAT=<ID=LPL,Number=G,Type=Integer,Description=\"d\">", "#CHROM\tPOS\tID\tREF\tALT\tQUAL\tFILTER\tINFO"],
+    &["##fileformat=VCFv4.4", "##FORMAT=<ID=LPL,Number=G,Type=Integer,Description=\"d\">", "##FORMAT=<ID=GT,Number=1,Type=String,Description=\"d\">", "#CHROM\tPOS\tID\tREF\tALT\tQUAL\tFILTER\tINFO"],
+    &["##fileformat=VCFv4.3", "##FORMAT=<ID=GT,Number=1,Type=Integer,Description=\"d\">", "#CHROM\tPOS\tID\tREF\tALT\tQUAL\tFILTER\tINFO"],
+    &["##fileformat=VCFv4.3", "##FORMAT=<ID=AC,Number=1,Type=Integer,Description=\"d\">", "##INFO=<ID=GQ,Number=3,Type=String,Description=\"d\">", "#CHROM\tPOS\tID\tREF\tALT\tQUAL\tFILTER\tINFO"],
+    &["##fileformat=VCFv4.3", "##INFO=<ID=1000G,Number=0,Type=Flag,Description=\"d\">", "##INFO=<ID=END,Number=1,Type=Integer,Description=\"d\">", "#CHROM\tPOS\tID\tREF\tALT\tQUAL\tFILTER\tINFO"],
+    &["##fileformat=VCFv4.6", "##INFO=<ID=AC,Number=1,Type=Integer,Description=\"d\">", "#CHROM\tPOS\tID\tREF\tALT\tQUAL\tFILTER\tINFO"],
 ];
 
 pub fn gen_hp(rng: &mut Rng, w: &mut CaseWriter, n_mut: usize) {
